@@ -78,7 +78,9 @@ class Rng(random.Random):
     def start_time(self):
         return self.choice([0.0, 0.0, 1.5, -2.25, 1e6, -1e6, 123456.789, 7.0 / 3.0])
 
-    def problem(self, order, dim, n, tdom="W", dcls=None, dyadic=None, t0=None):
+    SPECIALS = ("zero", "const", "rest", "pair", "dwell_s", "dwell_e")
+
+    def problem(self, order, dim, n, tdom="W", dcls=None, dyadic=None, t0=None, special=None):
         dcls = dcls or self.choice(["grid", "grid", "real", "real", "big"])
         dyadic = self.random() < 0.5 if dyadic is None else dyadic
         if tdom == "W":
@@ -92,9 +94,20 @@ class Rng(random.Random):
         # special coordinates (data-dependent shortcuts): one coordinate identically zero, or constant and at rest, or at rest only,
         # or two consecutive equal waypoints
         u = self.random()
-        if u < 0.24:
+        if u < 0.36 or special:
             c = self.randrange(dim)
-            kind = ("zero", "const", "rest", "pair")[int(u / 0.06)]
+            kind = special or self.SPECIALS[int(u / 0.06)]
+            if kind in ("dwell_s", "dwell_e"):
+                # the coordinate rests on its first (last) waypoint for one or two segments with zero boundary derivatives there, then moves:
+                # leading (trailing) right-hand-side rows of the solvers are exactly zero
+                m = min(n, 1 + (self.random() < 0.5))
+                idx = range(1, m + 1) if kind == "dwell_s" else range(n - m, n)
+                ref = P[0][c] if kind == "dwell_s" else P[n][c]
+                for i in idx:
+                    P[i][c] = ref
+                for k in bc:
+                    if k[0] == ("s" if kind == "dwell_s" else "e"):
+                        bc[k][c] = 0.0
             if kind in ("zero", "const"):
                 val = 0.0 if kind == "zero" else self.data_value(dcls)
                 for row in P:
